@@ -274,6 +274,10 @@ func famCancel(w *World, c *Case, rng *rand.Rand) {
 			if completedBefore {
 				w.Violate("C07", "completed-rpc-changed-outcome", "rpc %s had completed before the cancel", target)
 			}
+			// the code names the cause: Canceled for a cancelled context, DeadlineExceeded for an expired one
+			if wantCode := map[string]codes.Code{"cancel": codes.Canceled, "deadline": codes.DeadlineExceeded}[how]; !completedBefore && wantCode != 0 && t.Code != wantCode && t.Err != map[codes.Code]string{codes.Canceled: context.Canceled.Error(), codes.DeadlineExceeded: context.DeadlineExceeded.Error()}[wantCode] {
+				w.Violate("C07", "wrong-code-for-cause", "%s of rpc %s (k=%d, %s): the caller got code %v (%q), want %v", how, target, k, w.Cfg, t.Code, t.Err, wantCode)
+			}
 		default:
 			if !completedBefore {
 				w.Violate("C07", "neither-legal-outcome", "%s of rpc %s (k=%d, %s): caller got %q: neither Canceled/DeadlineExceeded nor the handler's outcome", how, target, k, w.Cfg, t.Err)
